@@ -35,7 +35,7 @@ RULE = ('cases = (backend/layout, mailbox name); every case runs the name '
         'reference, LIST pattern, LSUB reference, SUBSCRIBE, UNSUBSCRIBE, '
         'APPEND, COPY, MOVE, CREATE, RENAME to, RENAME from, DELETE (plus '
         'RENAME/DELETE again after CREATE). Exhaustive over names of <= 2 '
-        '(quick) / <= 3 (thorough) components from an 11-element alphabet, '
+        '(quick) / <= 3 (thorough) components from a 16-element alphabet, '
         'both maildir layouts and dict; Hypothesis names beyond. Non-trivial '
         '= the name has an empty, "." or ".." component, a NUL, or a '
         'doubled / leading / trailing delimiter; distinct by (backend, '
@@ -53,7 +53,10 @@ ASSUMPTIONS = ['filesystem calls are observed by wrapping os/builtins/io in '
 BUDGET = {'quick': (25, 16), 'thorough': (600, 16)}
 
 COMPONENTS = ['', '.', '..', 'a', 'INBOX', 'x y', '\x00', 'L' * 300, 'é中',
-              '~', '*']
+              '~', '*',
+              # compatibility look-alikes of '.', '..' and '/': harmless as
+              # they are, '..' and '/' after a Unicode normalisation
+              '\u2024', '\u2025', '\uff0e\uff0e', 'a\uff0fb', 'cur']
 
 
 def enumerate_cases(tier: str) -> Any:
